@@ -3,7 +3,7 @@ from lib import hexs
 
 MODULE = "DtailModel.Props.C12"
 # translated packages (tie G) this property's theorems rest on
-GEN_UNITS = ("Regex", "Config")
+GEN_UNITS = ("Regex", "Config", "ClientArgs")
 GROUPS = ["C10", "C12", "C03", "GEN"]
 BINS = True
 LOGGER = "none"
@@ -11,7 +11,7 @@ BUDGET = {"quick": 3000, "thorough": 60000}
 LEVEL_TEXT = ("Lean theorem C12_roundtrip: for every regex (any bytes), polarity, before/after/max and mode combination the "
               "server's decode of the client's encoding yields the same command, file, line context, modes, flag and pattern "
               "(base64 and %d/Atoi as codec hypotheses); tied to the code by running the real client makeCommands -> "
-              "SendMessage/Read -> server Write with a capturing callback, and the dgrep binary end to end; tie G on internal/regex as translated from the working tree on every run: C12_generated_match (Match is the first flag applied to the engine's answer), C12_generated_regex_roundtrip (Deserialize(Serialize(New p c)) selects with Match exactly the lines the client's value selects, for every expression, polarity, line and engine), C12_generated_wire_is_model_wire; gen.regex validates the translator (also on forged wire forms); c12.select decodes several requests in one process and evaluates every retained filter afterwards; C12_options_any_order: SerializeOptions ranges over a Go map, so the options reach the wire in any order — every permutation of a request's options decodes to the same line context and session modes (Lemmas/OptionOrder.lean: decoding is a fold of per-option steps that commute for different keys up to what a session can observe); tie G: C12_generated_option_decoder_refines_model — config.DeserializeOptions / setOption as translated from the working tree compute the model's deserializeOptions (same line context, option map with the same lookups, an error exactly where the model has one; Lemmas/GenOptions.lean), hence C12_generated_options_any_order on the code as it is now")
+              "SendMessage/Read -> server Write with a capturing callback, and the dgrep binary end to end; tie G on internal/regex as translated from the working tree on every run: C12_generated_match (Match is the first flag applied to the engine's answer), C12_generated_regex_roundtrip (Deserialize(Serialize(New p c)) selects with Match exactly the lines the client's value selects, for every expression, polarity, line and engine), C12_generated_wire_is_model_wire; gen.regex validates the translator (also on forged wire forms); c12.select decodes several requests in one process and evaluates every retained filter afterwards; C12_options_any_order: SerializeOptions ranges over a Go map, so the options reach the wire in any order — every permutation of a request's options decodes to the same line context and session modes (Lemmas/OptionOrder.lean: decoding is a fold of per-option steps that commute for different keys up to what a session can observe); tie G: C12_generated_option_decoder_refines_model — config.DeserializeOptions / setOption as translated from the working tree compute the model's deserializeOptions (same line context, option map with the same lookups, an error exactly where the model has one; Lemmas/GenOptions.lean), hence C12_generated_options_any_order on the code as it is now; the client end: Args.SerializeOptions is translated on every run (Go's map iteration order is a parameter assumed only to be a permutation) and C12_generated_client_options_reach_server proves that what the translated client writes the translated server decodes to the request, in every order; c12.roundtrip runs both translated ends")
 TRUSTED = ["Lean 4 kernel", "axioms: propext, Quot.sound, Classical.choice (at most)", "fact extractor (protocol version, noop patterns, flag names)",
            "overlay harness + dtmodel driver + this diff",
            "hypotheses of the theorem, not verified: encoding/base64 round trip and alphabet, fmt %d / strconv.Atoi round trip, regexp.Compile accepts what the client accepted",
